@@ -60,6 +60,9 @@ pub fn install_panic_hook() {
             .location()
             .map(|l| format!("{}:{}", l.file(), l.line()))
             .unwrap_or_default();
+        if std::env::var("VERIF_PANIC_TRACE").is_ok() {
+            eprintln!("panic: {} @ {}", msg, loc);
+        }
         LAST_PANIC.with(|p| *p.borrow_mut() = format!("{} @ {}", msg, loc));
     }));
 }
@@ -186,6 +189,7 @@ pub struct Failure {
 }
 
 pub struct Phase {
+    pub wall_s: f64,
     pub name: String,
     pub stats: Stats,
     pub failure: Option<Failure>,
@@ -244,6 +248,7 @@ impl Run {
         T: Debug + Clone + Serialize + Send,
         F: Fn(&T, &mut Rec) -> Result<(), String> + Sync,
     {
+        let t_phase = Instant::now();
         let shards = THREADS.min(cases.max(1));
         let per = (cases + shards - 1) / shards;
         let results: Mutex<Vec<(Stats, Option<(String, Value)>)>> = Mutex::new(Vec::new());
@@ -325,6 +330,7 @@ impl Run {
             }
         }
         self.phases.push(Phase {
+            wall_s: t_phase.elapsed().as_secs_f64(),
             name: phase.to_string(),
             stats,
             failure,
@@ -338,6 +344,7 @@ impl Run {
         T: Debug + Clone + Serialize + Send + Sync,
         F: Fn(&T, &mut Rec) -> Result<(), String> + Sync,
     {
+        let t_phase = Instant::now();
         let n = items.len();
         let results: Mutex<Vec<(Stats, Option<(String, Value)>)>> = Mutex::new(Vec::new());
         let next = std::sync::atomic::AtomicUsize::new(0);
@@ -401,6 +408,7 @@ impl Run {
         }
         let failed = failure.is_some();
         self.phases.push(Phase {
+            wall_s: t_phase.elapsed().as_secs_f64(),
             name: phase.to_string(),
             stats,
             failure,
@@ -428,6 +436,7 @@ impl Run {
             case: case.clone(),
         });
         self.phases.push(Phase {
+            wall_s: 0.0,
             name: format!("replay:{}", phase),
             stats: st,
             failure,
@@ -487,6 +496,7 @@ impl Run {
                 "distinct_nontrivial": p.stats.nontrivial.len(),
                 "exhaustive": p.exhaustive,
                 "failed": p.failure.is_some(),
+                "wall_s": p.wall_s,
             }));
             if let Some(f) = &p.failure {
                 violations += 1;
